@@ -3,6 +3,7 @@ import itertools
 from fractions import Fraction
 
 from ..common import rng
+from ..drivers import behaviours
 from ..drivers import programs, targeted
 from ._twin import replay_programs, run_programs
 
@@ -29,6 +30,20 @@ def check(run, tier):
                                       weights={"transfer": 1, "distribute": 0, "aspirate": 0, "dispense": 0, "add": 0, "remove": 0},
                                       transfer_kw={"nmax": 12, "kwargs": True})
         progs.append(p)
+    # specification -> code: behaviours enumerated by TLC on the bounded model, replayed on the implementation
+    for cfg in ("MC_TwinGen_transferq1",) if q else ("MC_TwinGen_transferq1", "MC_TwinGen_transfer1"):
+        mprogs, res = behaviours.generate(cfg, timeout=3000)
+        if not mprogs:
+            run.machinery_errors.append(f"behaviour generation with {cfg} failed: {res.errors[:2]}")
+        run.states += res.distinct
+        run.transitions += res.generated
+        if q and len(mprogs) > 400:
+            # quick tier: a seeded sample of the enumerated behaviours (thorough replays all of them)
+            k = len(mprogs) // 400 + 1
+            mprogs = mprogs[r.randrange(k)::k]
+        run.extra.setdefault("model_behaviours_replayed", 0)
+        run.extra["model_behaviours_replayed"] += len(mprogs)
+        progs += mprogs
     run_programs(run, progs)
 
 
